@@ -84,7 +84,7 @@ ASSUMPTIONS = [
 ]
 
 EXCS = {"Abort": fault.Abort, "Fault": fault.Fault}
-BASE_OPS = ("find", "save", "load", "exit", "kill", "add", "delete")
+BASE_OPS = ("find", "save", "load", "exit", "kill", "add", "delete", "reset")
 
 
 def chunks(n, parts):
